@@ -1,6 +1,6 @@
 (** C07 - expect completes exactly when the screen matches, and keeps polling until then. *)
 From Coq Require Import ZArith List Bool PrimFloat.
-From VD Require Import Base.Bytes Model.Image Model.Expect Proofs.ExpectP Gen.ExpectOps Proofs.ExpectTie Gen.Exprs Proofs.ExprTie.
+From VD Require Import Base.Bytes Model.Image Model.Expect Proofs.ExpectP Gen.ExpectOps Proofs.ExpectTie Gen.ExprsExpectBox Proofs.TieExpectBox.
 Import ListNotations.
 Open Scope Z_scope.
 
@@ -85,5 +85,5 @@ Print Assumptions C07_compare_is_source.
 (** The box handed to the comparison by expectRegion / expectScreen is the source's own (the file's size at the offset;
     expectScreen is the offset (0, 0)): regenerated from _expectFramebuffer on every run (gen/exprs.py). *)
 Theorem C07_box_is_source : forall x y w h, gen_expect_box x y w h = region_box x y w h.
-Proof. intros; apply region_boxes_are_source. Qed.
+Proof. exact expect_box_is_source. Qed.
 Print Assumptions C07_box_is_source.
